@@ -273,7 +273,10 @@ def c_run(r, bh, theta=None, upto=260):
                 ok = False
         if ok and n >= (7 if bh else 4):
             break
-    perp = Fraction(2) if bh else r.choice([Fraction(3, 2), Fraction(2)])
+    # Barnes-Hut: K = floor(3 * perplexity) — non-integer perplexities with fractional part >= 1/3 tell it from
+    # 3 * floor(perplexity)
+    perp = r.choice([Fraction(2), Fraction(3, 2), Fraction(7, 4)] + ([Fraction(5, 2)] if n >= 8 else [])) if bh else \
+        r.choice([Fraction(3, 2), Fraction(2)])
     if not bh and perp >= n - 1:
         perp = Fraction(3, 2)
     g = [dy(r.range(-40, 40), -4) for _ in range(2 * n)]
